@@ -81,6 +81,12 @@ class Ctx:
 
     # -- variables ----------------------------------------------------------
     def newvar(self, name, kind='input'):
+        if self.domain == 'f':
+            zv = z3.FP(name, z3.Float64())
+            self.zvar_by_name[name] = zv
+            if kind == 'input':
+                self.inputs.append((name, zv))
+            return FR(zv)
         zv = z3.Real(name)
         self.zvar_by_name[name] = zv
         if kind == 'input':
@@ -325,42 +331,58 @@ class SR(numbers.Real):
 
     def __add__(self, o):
         b = lift(o)
-        if b is None: return NotImplemented
+        if b is None:
+            if isinstance(o, (complex, _np.complexfloating, SC)): return SC.of(self) + o
+            return NotImplemented
         return _add(self, b)
 
     def __radd__(self, o):
         b = lift(o)
-        if b is None: return NotImplemented
+        if b is None:
+            if isinstance(o, (complex, _np.complexfloating, SC)): return SC.of(o) + SC.of(self)
+            return NotImplemented
         return _add(b, self)
 
     def __sub__(self, o):
         b = lift(o)
-        if b is None: return NotImplemented
+        if b is None:
+            if isinstance(o, (complex, _np.complexfloating, SC)): return SC.of(self) - o
+            return NotImplemented
         return _add(self, -b)
 
     def __rsub__(self, o):
         b = lift(o)
-        if b is None: return NotImplemented
+        if b is None:
+            if isinstance(o, (complex, _np.complexfloating, SC)): return SC.of(o) - SC.of(self)
+            return NotImplemented
         return _add(b, -self)
 
     def __mul__(self, o):
         b = lift(o)
-        if b is None: return NotImplemented
+        if b is None:
+            if isinstance(o, (complex, _np.complexfloating, SC)): return SC.of(self) * o
+            return NotImplemented
         return _mul(self, b)
 
     def __rmul__(self, o):
         b = lift(o)
-        if b is None: return NotImplemented
+        if b is None:
+            if isinstance(o, (complex, _np.complexfloating, SC)): return SC.of(o) * SC.of(self)
+            return NotImplemented
         return _mul(b, self)
 
     def __truediv__(self, o):
         b = lift(o)
-        if b is None: return NotImplemented
+        if b is None:
+            if isinstance(o, (complex, _np.complexfloating, SC)): return SC.of(self) / o
+            return NotImplemented
         return _div(self, b)
 
     def __rtruediv__(self, o):
         b = lift(o)
-        if b is None: return NotImplemented
+        if b is None:
+            if isinstance(o, (complex, _np.complexfloating, SC)): return SC.of(o) / SC.of(self)
+            return NotImplemented
         return _div(b, self)
 
     def __pow__(self, k):
@@ -442,6 +464,8 @@ def _sym(a):
     if isinstance(a, K):
         if CTX.domain == 'z':
             return ZR(z3.RealVal(str(a.v)))
+        if CTX.domain == 'f':
+            return FR(z3.FPVal(float(a.v), z3.Float64()))
         return AR(CTX.R.const(a.v))
     return a
 
@@ -453,10 +477,11 @@ def _add(a, b):
         return K(float(a.v) + float(b.v))
     if not _finite(a) or not _finite(b):
         return a if not _finite(a) else b        # inf + symbolic = inf
-    if isinstance(a, K) and a.v == 0:
-        return b
-    if isinstance(b, K) and b.v == 0:
-        return a
+    if CTX is None or CTX.domain != 'f':
+        if isinstance(a, K) and a.v == 0:
+            return b
+        if isinstance(b, K) and b.v == 0:
+            return a
     a, b = _sym(a), _sym(b)
     return a._add(b)
 
@@ -468,12 +493,13 @@ def _mul(a, b):
         return K(float(a.v) * float(b.v))
     if not _finite(a) or not _finite(b):
         raise Unsupported('inf * symbolic')
-    if isinstance(a, K):
-        if a.v == 0: return a
-        if a.v == 1: return b
-    if isinstance(b, K):
-        if b.v == 0: return b
-        if b.v == 1: return a
+    if CTX is None or CTX.domain != 'f':
+        if isinstance(a, K):
+            if a.v == 0: return a
+            if a.v == 1: return b
+        if isinstance(b, K):
+            if b.v == 0: return b
+            if b.v == 1: return a
     if isinstance(a, LazySqrt) or isinstance(b, LazySqrt):
         r = LazySqrt._mul(a, b)
         if r is not None:
@@ -507,6 +533,8 @@ def _div(a, b):
             raise DivByZeroEvent('divisor can be zero')
         return sqrt(_div(a.rad, b.rad))
     b = _sym(b)
+    if isinstance(b, FR):
+        return FR(z3.fpDiv(z3.RNE(), _sym(a).e, b.e))
     return _mul(a, b._inv())
 
 
@@ -556,6 +584,8 @@ def _cmp(a, o, op):
 
 def sqrt(x):
     x = lift(x)
+    if CTX is not None and CTX.domain == 'f':
+        return FR(z3.fpSqrt(z3.RNE(), _sym(x).e))
     if isinstance(x, K):
         if not _finite(x):
             return x
@@ -598,6 +628,33 @@ class ZR(SR):
     def z3(self): return self.e
 
     def __repr__(self): return 'ZR(%s)' % (str(self.e)[:60],)
+
+
+# ---------------------------------------------------------------------------
+class FR(SR):
+    """IEEE-754 binary64 term (z3 FloatingPoint sort, round-to-nearest-even):
+    the bit-precise domain used for the "bit-for-bit" round-trip clauses"""
+    __slots__ = ('e',)
+
+    def __init__(self, e):
+        self.e = e
+
+    def _add(self, o): return FR(z3.fpAdd(z3.RNE(), self.e, o.e))
+    def _mul(self, o): return FR(z3.fpMul(z3.RNE(), self.e, o.e))
+    def __neg__(self): return FR(z3.fpNeg(self.e))
+    def __abs__(self): return FR(z3.fpAbs(self.e))
+
+    def _inv(self):
+        return FR(z3.fpDiv(z3.RNE(), z3.FPVal(1.0, z3.Float64()), self.e))
+
+    def _cmpz(self, o, op):
+        f = {'<': z3.fpLT, '<=': z3.fpLEQ, '>': z3.fpGT, '>=': z3.fpGEQ, '==': z3.fpEQ,
+             '!=': z3.fpNEQ}[op]
+        return SymBool(f(self.e, o.e))
+
+    def z3(self): return self.e
+
+    def __repr__(self): return 'FR(%s)' % (str(self.e)[:60],)
 
 
 # ---------------------------------------------------------------------------
@@ -1036,6 +1093,8 @@ def arr(name, shape):
 def to_z3(x):
     x = lift(x)
     if isinstance(x, K):
+        if CTX is not None and CTX.domain == 'f':
+            return z3.FPVal(float(x.v), z3.Float64())
         return z3.RealVal(str(x.v))
     return x.z3()
 
@@ -1057,6 +1116,18 @@ def eq0_term(x):
 def model_value(m, zv, digits=40):
     """z3 model value -> Fraction (exact if rational, else a close rational)"""
     v = m.eval(zv, model_completion=True)
+    if z3.is_fp(v):
+        import struct
+        if not isinstance(v, z3.FPNumRef):
+            v = z3.simplify(v)
+        if not isinstance(v, z3.FPNumRef):
+            return 0.0
+        if v.isNaN():
+            return float('nan')
+        if v.isInf():
+            return float('-inf') if v.isNegative() else float('inf')
+        bits = ((1 if v.isNegative() else 0) << 63) | (v.exponent_as_long(True) << 52) | v.significand_as_long()
+        return struct.unpack('>d', bits.to_bytes(8, 'big'))[0]
     if z3.is_rational_value(v):
         return Fraction(v.numerator_as_long(), v.denominator_as_long())
     if z3.is_algebraic_value(v):
